@@ -37,6 +37,24 @@ let arg_of (s : string) : int =
   let i = String.index s '(' in int_of_string (String.sub s (i + 1) (String.length s - i - 2))
 
 (* apply one recorded operation to the sequential state; None = result does not match *)
+(* handles of subscribers created during the run -> index in the sequential model (assigned in the
+   order in which the subscribe calls are linearized) *)
+let apply_op_h (o : nat obs) (hm : (int * int) list) (r : rec_op) : (nat obs * (int * int) list) option =
+  let t = r.text in
+  if starts_with "subscribe(" t then begin
+    match step veq heq vdefault o WSubscribe with
+    | Ok ((o', OSubId k), _) when r.res = "()" -> Some (o', (arg_of t, n2i k) :: hm)
+    | _ -> None
+  end else if starts_with "lpoll(" t || starts_with "lnext_now(" t then begin
+    match List.assoc_opt (arg_of t) hm with
+    | None -> None
+    | Some idx ->
+      let x = if starts_with "lpoll(" t then SPoll (i2n idx) else SNextNow (i2n idx) in
+      (match step veq heq vdefault o x with
+       | Ok ((o', out), _) -> if M_obs.show_out "" out = r.res then Some (o', hm) else None
+       | Panic -> None)
+  end else None
+
 let apply_op (o : nat obs) (r : rec_op) : nat obs option =
   let one (o : nat obs) (x : nat op) (expect : string) : nat obs option =
     match step veq heq vdefault o x with
@@ -72,10 +90,11 @@ let apply_op (o : nat obs) (r : rec_op) : nat obs option =
 let linearizable (o0 : nat obs) (ops : rec_op array) : bool =
   let n = Array.length ops in
   let memo = Hashtbl.create 1024 in
-  let rec go (donemask : int) (o : nat obs) : bool =
+  let rec go (donemask : int) (o : nat obs) (hm : (int * int) list) : bool =
     if donemask = (1 lsl n) - 1 then true
     else begin
-      let key = (donemask, n2i o.val0, n2i o.ver, List.map (function Some v -> n2i v | None -> -1) o.subs0) in
+      let key = (donemask, n2i o.val0, n2i o.ver, List.map (function Some v -> n2i v | None -> -1) o.subs0,
+                 List.sort compare hm) in
       if Hashtbl.mem memo key then false
       else begin
         Hashtbl.add memo key ();
@@ -87,14 +106,18 @@ let linearizable (o0 : nat obs) (ops : rec_op array) : bool =
         let ok = ref false in
         for i = 0 to n - 1 do
           if not !ok && donemask land (1 lsl i) = 0 && ops.(i).inv < !minresp then
-            (match apply_op o ops.(i) with
-             | Some o' -> if go (donemask lor (1 lsl i)) o' then ok := true
+            (let t = ops.(i).text in
+             let r = if starts_with "subscribe(" t || starts_with "lpoll(" t || starts_with "lnext_now(" t
+               then apply_op_h o hm ops.(i)
+               else (match apply_op o ops.(i) with Some o' -> Some (o', hm) | None -> None) in
+             match r with
+             | Some (o', hm') -> if go (donemask lor (1 lsl i)) o' hm' then ok := true
              | None -> ())
         done;
         !ok
       end
     end in
-  go 0 o0
+  go 0 o0 []
 
 let run_line (line : string) =
   let case, obs =
